@@ -888,6 +888,135 @@ theorem read_paths_go_through_the_gate :
   rw [List.all_eq_true] at this
   simpa using this f hf
 
+/-! ## Remembering read decisions within a request (fourth-round class) -/
+
+/-- **A memo of `may_read` keyed by `κ` is sound iff `may_read` factors through `κ`.** Sound = for every
+load order of every set of elements the memoising gate hands out exactly the per-element decisions. -/
+theorem memo_sound_iff {R K C : Type} [DecidableEq K] (κ : R → K) (read : R → Option C) :
+    (∀ rs : List R, memoReads κ read [] rs = rs.map read) ↔ (∀ r r' : R, κ r = κ r' → read r = read r') := by
+  constructor
+  · intro h r r' hk
+    have := h [r, r']
+    simp [memoReads, cacheGet, hk] at this
+    exact this
+  · intro hf
+    have inv : ∀ (rs : List R) (cache : List (K × Option C)),
+        (∀ kv ∈ cache, ∀ r, κ r = kv.1 → read r = kv.2) → memoReads κ read cache rs = rs.map read := by
+      intro rs
+      induction rs with
+      | nil => intro _ _; rfl
+      | cons r rs ih =>
+        intro cache hc
+        simp only [memoReads, List.map_cons]
+        cases hg : cacheGet cache (κ r) with
+        | none =>
+          simp only
+          rw [ih]
+          intro kv hkv r2 hr2
+          rcases List.mem_cons.mp hkv with rfl | hkv'
+          · exact hf r2 r hr2
+          · exact hc kv hkv' r2 hr2
+        | some known =>
+          simp only
+          have : read r = known := by
+            unfold cacheGet at hg
+            cases hfnd : cache.find? (fun kv => kv.1 = κ r) with
+            | none => simp [hfnd] at hg
+            | some kv =>
+              simp [hfnd] at hg
+              have hmem := List.mem_of_find?_eq_some hfnd
+              have hkey : kv.1 = κ r := by simpa using List.find?_some hfnd
+              rw [← hg]
+              exact hc kv hmem r hkey.symm
+          rw [this, ih cache hc]
+    intro rs
+    exact inv rs [] (by simp)
+
+/-- When no authority source names individual elements — no candidate's `scope.elements`, **and no policy
+statement's `resource.elements`** — the read decision about an element (which always has a kind) does not
+depend on its id: then, and only then, the class-level key is a sound memo key. -/
+theorem mayRead_factors_without_element_scopes (ea : EA) (a : Auth) (now : Nat)
+    (hc : ∀ c ∈ ea.candidates, c.scope.elements = []) (hs : ∀ s ∈ ea.statements, s.resource.elements = [])
+    (r : Resource) (hk : r.kind ≠ "") (e' : String) :
+    mayRead ea { r with elementId := e' } a now = mayRead ea r a now := by
+  have hsp : ∀ e, ({ r with elementId := e } : Resource).isSpaceScope = false := by
+    intro e; simp [Resource.isSpaceScope, hk]
+  have heff : ∀ e, ea.effectiveResource { r with elementId := e } = { ea.effectiveResource r with elementId := e } := by
+    intro e
+    have h0 := hsp r.elementId
+    simp only [EA.effectiveResource, hsp e] at *
+    have : ({ r with elementId := r.elementId } : Resource) = r := rfl
+    rw [this] at h0
+    simp only [h0]
+    by_cases hcl : r.classification = "" <;> simp [hcl]
+  have hsp' : ∀ e, ({ ea.effectiveResource r with elementId := e } : Resource).isSpaceScope = false := by
+    intro e
+    have : (ea.effectiveResource r).kind = r.kind := by
+      unfold EA.effectiveResource; split <;> rfl
+    simp [Resource.isSpaceScope, this, hk]
+  have hscope : ∀ (sc : Scope), sc.elements = [] → ∀ e, scopeMatches sc { ea.effectiveResource r with elementId := e } = scopeMatches sc (ea.effectiveResource r) := by
+    intro sc hel e
+    simp [scopeMatches, hel, covers]
+  have hcm : ∀ c ∈ ea.candidates, ∀ perm, candidateMatches c perm { ea.effectiveResource r with elementId := e' } a now =
+      candidateMatches c perm (ea.effectiveResource r) a now := by
+    intro c hcm perm
+    have h1 := hsp' e'
+    have h2 : (ea.effectiveResource r).isSpaceScope = false := by
+      have := hsp' (ea.effectiveResource r).elementId
+      simpa using this
+    simp only [candidateMatches, h1, h2, hscope c.scope (hc c hcm) e', reachesClassification]
+  have hsm : ∀ s ∈ ea.statements, ∀ perm, statementMatches ea s perm { ea.effectiveResource r with elementId := e' } a now =
+      statementMatches ea s perm (ea.effectiveResource r) a now := by
+    intro s hsm perm
+    have h1 := hsp' e'
+    have h2 : (ea.effectiveResource r).isSpaceScope = false := by
+      have := hsp' (ea.effectiveResource r).elementId
+      simpa using this
+    simp only [statementMatches, h1, h2, hscope s.resource (hs s hsm) e']
+  have hden : ea.denyMatches "read" { ea.effectiveResource r with elementId := e' } a now = ea.denyMatches "read" (ea.effectiveResource r) a now := by
+    simp only [EA.denyMatches]
+    apply any_congr_mem
+    intro s hsm'
+    rw [hsm s hsm' "read"]
+  have hals : ea.allowStatements "read" { ea.effectiveResource r with elementId := e' } a now = ea.allowStatements "read" (ea.effectiveResource r) a now := by
+    simp only [EA.allowStatements]
+    apply filter_congr_mem
+    intro s hsm'
+    rw [hsm s hsm' "read"]
+  have hall : ea.allows "read" { ea.effectiveResource r with elementId := e' } a now = ea.allows "read" (ea.effectiveResource r) a now := by
+    simp only [EA.allows, hals]
+    congr 2
+    apply filter_congr_mem
+    intro c hcm'
+    rw [hcm c hcm' "read"]
+  unfold mayRead authorize
+  simp only [heff e', hden, hals, hall]
+  split
+  · rfl
+  · split
+    · rfl
+    · split
+      · rfl
+      · split
+        · rfl
+        · split <;> rfl
+
+/-- The class-level key is NOT sound once the bound policy carries an allow statement that names an element —
+although no Grant and no Delegation does: of two siblings of one kind, type and label, the one the statement
+names is readable and the other is not, so whichever loads first decides for both. -/
+theorem memo_by_class_counterexample :
+    ∃ (ea : EA) (a : Auth) (r r' : Resource),
+      (∀ c ∈ ea.candidates, c.scope.elements = []) ∧ classKey r = classKey r' ∧
+      mayRead ea r a 2050 ≠ mayRead ea r' a 2050 ∧
+      memoReads classKey (fun x => mayRead ea x a 2050) [] [r, r'] ≠ [r, r'].map (fun x => mayRead ea x a 2050) ∧
+      memoReads classKey (fun x => mayRead ea x a 2050) [] [r', r] ≠ [r', r].map (fun x => mayRead ea x a 2050) :=
+  ⟨{ principalId := "p", policyId := "pol", policyVersion := 1,
+     statements := [{ effect := "allow", principals := ["p"], actions := ["read"], resource := { elements := ["C-1"] } }] },
+   { principalId := "p", authStrength := "standard" },
+   { kind := "concept", schemaRef := "T", classification := "public", elementId := "C-1" },
+   { kind := "concept", schemaRef := "T", classification := "public", elementId := "C-2" },
+   by simp, by decide, by decide, by decide, by decide⟩
+
 /-! ## The command gate (tables regenerated from gate.rs) -/
 
 def writePermissions : List String :=
